@@ -45,31 +45,61 @@ const (
 
 var c46Actions = []WalletActionType{ActionHeartbeat, ActionDepositSweep, ActionRedemption, ActionMovingFunds, ActionMovedFundsSweep}
 
-// --- observation of the blocks the real code waits for -------------------------
+// --- logical block clock and observation of the blocks the real code waits for ---
+//
+// Every wait of the real code goes through the stubs below. Timers (context
+// deadlines registered through withCancelOnBlock) are passive; the retry
+// loop's attempt-level waits drive the logical clock: an attempt wait for
+// block b either elapses (clock = b, the attempt is made to fail so the loop
+// moves on) or - when a registered deadline is due first - the clock stops at
+// that deadline, the timer fires and the simulation waits for its EFFECT (the
+// cancellation of the context it guards) before going on. All verdicts are
+// read from this logical clock; wall-clock patience only guards the hand-over
+// between goroutines and maps to INCONCLUSIVE.
+
+type c46Timer struct {
+	block uint64
+	kind  string // "action" (deadline of the action's signing / claim context) or "loop"
+	fire  chan struct{}
+	fired bool
+}
+
+type c46SignCall struct {
+	start       uint64
+	loopTimeout uint64
+	hasLoop     bool
+	waits       []uint64 // attempt-level waits that elapsed
+	returnedAt  uint64   // logical clock when sign() returned
+}
 
 type c46Obs struct {
 	mu         sync.Mutex
+	clock      uint64
 	signingCtx context.Context
 	signStart  uint64
 	signCalls  int
+	calls      []*c46SignCall
+	timers     []*c46Timer
+	loopRegs   int
 	actionCh   chan uint64 // blocks requested through the ACTION's waitForBlockFn
-	loopCh     chan uint64 // loop timeout block registered by the real signingExecutor.sign
-	loopSeen   chan struct{}
-	loopOnce   sync.Once
-	annCh      chan uint64 // first attempt-level wait of the real retry loop
 	release    chan struct{}
 	relOnce    sync.Once
 	active     sync.WaitGroup
 	confirm    []uint64 // heights waited for through the chain's block counter
 	timedOut   bool
+	overrun    string // logical-clock evidence: retry loop alive after the signing deadline
 	current    uint64
 }
 
+var errC46AttemptFailed = fmt.Errorf("c46: attempt made to fail by the harness")
+
+// marker value put on the context handed to the real sign()/signBatch():
+// contexts derived from it carry the value, contexts built from
+// context.Background() do not.
+type c46MarkKey struct{}
+
 func c46NewObs(current uint64) *c46Obs {
-	return &c46Obs{
-		actionCh: make(chan uint64, 8), loopCh: make(chan uint64, 8), loopSeen: make(chan struct{}),
-		annCh: make(chan uint64, 8), release: make(chan struct{}), current: current,
-	}
+	return &c46Obs{actionCh: make(chan uint64, 8), release: make(chan struct{}), current: current, clock: current}
 }
 
 func (o *c46Obs) releaseAll() { o.relOnce.Do(func() { close(o.release) }) }
@@ -80,12 +110,28 @@ func (o *c46Obs) noteTimeout() {
 	o.mu.Unlock()
 }
 
+func (o *c46Obs) addTimer(b uint64, kind string) *c46Timer {
+	tm := &c46Timer{block: b, kind: kind, fire: make(chan struct{})}
+	o.mu.Lock()
+	o.timers = append(o.timers, tm)
+	if kind == "loop" {
+		o.loopRegs++
+		if n := len(o.calls); n > 0 && !o.calls[n-1].hasLoop {
+			o.calls[n-1].hasLoop, o.calls[n-1].loopTimeout = true, b
+		}
+	}
+	o.mu.Unlock()
+	return tm
+}
+
 // waitForBlockFn handed to the action constructors.
 func (o *c46Obs) actionWait(ctx context.Context, b uint64) error {
 	o.active.Add(1)
 	defer o.active.Done()
+	tm := o.addTimer(b, "action")
 	o.actionCh <- b
 	select {
+	case <-tm.fire:
 	case <-o.release:
 	case <-ctx.Done():
 	}
@@ -99,30 +145,121 @@ func (o *c46Obs) execWait(ctx context.Context, b uint64) error {
 	o.mu.Lock()
 	parent := o.signingCtx
 	o.mu.Unlock()
-	if ctx == parent {
-		// sign() registers the loop timeout on the context it was given
-		o.loopCh <- b
-		o.loopOnce.Do(func() { close(o.loopSeen) })
-		<-ctx.Done()
+	if ctx == parent || ctx.Done() == nil {
+		// a deadline registration (withCancelOnBlock calls the function with
+		// the context it DERIVES from): the loop timeout of sign()
+		tm := o.addTimer(b, "loop")
+		select {
+		case <-tm.fire:
+		case <-o.release:
+		case <-ctx.Done():
+		}
 		return nil
 	}
-	// attempt-level wait inside the retry loop: let the signing phase end
-	// once the loop timeout registration has been seen
-	select {
-	case o.annCh <- b:
-	default:
-	}
-	select {
-	case <-o.loopSeen:
-	case <-time.After(c46Patience):
-		o.noteTimeout()
-	}
-	o.releaseAll()
-	<-ctx.Done()
-	return ctx.Err()
+	return o.attemptWait(ctx, parent, b)
 }
 
-func (o *c46Obs) currentBlock() (uint64, error) { return o.current, nil }
+func (o *c46Obs) nextTimer() *c46Timer {
+	o.mu.Lock()
+	defer o.mu.Unlock()
+	var best *c46Timer
+	for _, tm := range o.timers {
+		if !tm.fired && (best == nil || tm.block < best.block) {
+			best = tm
+		}
+	}
+	return best
+}
+
+func (o *c46Obs) giveUp(ctx context.Context) error {
+	o.noteTimeout()
+	o.releaseAll()
+	select {
+	case <-ctx.Done():
+	case <-time.After(c46Patience):
+	}
+	return errC46AttemptFailed
+}
+
+// attempt-level wait of the real retry loop (ctx is the loop context).
+func (o *c46Obs) attemptWait(ctx context.Context, parent context.Context, b uint64) error {
+	// the loop timeout of the running sign() call is registered by a
+	// goroutine started before the loop: wait for it so that the set of
+	// deadlines is complete
+	if !verifkit.Eventually(c46Patience, func() bool {
+		o.mu.Lock()
+		defer o.mu.Unlock()
+		return o.loopRegs >= o.signCalls
+	}) {
+		return o.giveUp(ctx)
+	}
+	for {
+		if ctx.Err() != nil {
+			return ctx.Err()
+		}
+		tm := o.nextTimer()
+		if tm == nil || b < tm.block {
+			o.mu.Lock()
+			if b > o.clock {
+				o.clock = b
+			}
+			if n := len(o.calls); n > 0 {
+				o.calls[n-1].waits = append(o.calls[n-1].waits, b)
+			}
+			o.mu.Unlock()
+			return errC46AttemptFailed
+		}
+		// a deadline is due no later than the awaited block
+		o.mu.Lock()
+		if tm.block > o.clock {
+			o.clock = tm.block
+		}
+		tm.fired = true
+		o.mu.Unlock()
+		close(tm.fire)
+		effect := ctx.Done()
+		if tm.kind == "action" {
+			effect = parent.Done()
+		}
+		select {
+		case <-effect:
+		case <-time.After(c46Patience):
+			return o.giveUp(ctx)
+		}
+		if ctx.Err() != nil {
+			return ctx.Err()
+		}
+		if tm.kind == "action" && ctx.Value(c46MarkKey{}) == o {
+			// the loop context descends from the context handed down by the
+			// action (it carries the harness' marker value): the
+			// cancellation is on its way (a parent's Done channel closes
+			// just before its children are cancelled)
+			select {
+			case <-ctx.Done():
+				return ctx.Err()
+			case <-time.After(c46Patience):
+				return o.giveUp(ctx)
+			}
+		}
+		if tm.kind == "action" {
+			// logical-clock evidence: the deadline block has been reached,
+			// the context the action handed down IS cancelled, the loop
+			// context does not descend from it, and the retry loop is still
+			// alive and asking for a later block
+			o.mu.Lock()
+			if o.overrun == "" {
+				o.overrun = fmt.Sprintf("signing deadline block %d reached and the signing context cancelled, but the retry loop keeps running and waits for block %d", tm.block, b)
+			}
+			o.mu.Unlock()
+		}
+	}
+}
+
+func (o *c46Obs) currentBlock() (uint64, error) {
+	o.mu.Lock()
+	defer o.mu.Unlock()
+	return o.clock, nil
+}
 
 func (o *c46Obs) recv(ch chan uint64) (uint64, bool) {
 	select {
@@ -137,8 +274,19 @@ func (o *c46Obs) recv(ch chan uint64) (uint64, bool) {
 func (o *c46Obs) setSigning(ctx context.Context, start uint64) {
 	o.mu.Lock()
 	o.signingCtx = ctx
-	o.signStart = start
+	if o.signCalls == 0 {
+		o.signStart = start
+	}
 	o.signCalls++
+	o.calls = append(o.calls, &c46SignCall{start: start})
+	o.mu.Unlock()
+}
+
+func (o *c46Obs) signReturned() {
+	o.mu.Lock()
+	if n := len(o.calls); n > 0 {
+		o.calls[n-1].returnedAt = o.clock
+	}
 	o.mu.Unlock()
 }
 
@@ -176,24 +324,56 @@ func (c *c46Counter) WatchBlocks(context.Context) <-chan uint64 { return make(ch
 
 // wrapper around the REAL signing executor: records the start block and the
 // context the action passes, takes the action-level deadline first (so the
-// order of observations is forced) and delegates.
+// order of observations is forced) and delegates. For batches (transaction
+// actions) it then makes the call signBatch makes for a LATER message of the
+// batch - same context, later start block - so that the deadline handed
+// down by the action arrives while a retry loop is in progress.
 type c46Exec struct {
-	real    *signingExecutor
-	o       *c46Obs
-	timeout uint64
-	gotDL   bool
+	real      *signingExecutor
+	o         *c46Obs
+	timeout   uint64
+	gotDL     bool
+	lateClass string
+	lateRaw   uint64
+	lateStart uint64
+	lateRun   bool
 }
 
 func (e *c46Exec) signBatch(ctx context.Context, messages []*big.Int, startBlock uint64) ([]*tecdsa.Signature, error) {
 	e.timeout, e.gotDL = e.o.recv(e.o.actionCh)
+	ctx = context.WithValue(ctx, c46MarkKey{}, e.o)
 	e.o.setSigning(ctx, startBlock)
-	return e.real.signBatch(ctx, messages, startBlock)
+	sigs, err := e.real.signBatch(ctx, messages, startBlock)
+	e.o.signReturned()
+	if err == nil || !e.gotDL || e.lateClass == "" {
+		return sigs, err
+	}
+	// later message of the batch
+	clock, _ := e.o.currentBlock()
+	earliest := clock + signingBatchInterludeBlocks
+	switch {
+	case e.lateClass == "at-or-after" || earliest >= e.timeout:
+		e.lateStart = e.timeout + e.lateRaw%10
+	case e.lateClass == "binding":
+		back := 1 + e.lateRaw%min(204, e.timeout-earliest)
+		e.lateStart = e.timeout - back
+	default:
+		e.lateStart = earliest + e.lateRaw%(e.timeout-earliest)
+	}
+	e.lateRun = true
+	e.o.setSigning(ctx, e.lateStart)
+	_, _, _, _ = e.real.sign(ctx, messages[len(messages)-1], e.lateStart)
+	e.o.signReturned()
+	return sigs, err
 }
 
 func (e *c46Exec) sign(ctx context.Context, message *big.Int, startBlock uint64) (*tecdsa.Signature, *signingActivityReport, uint64, error) {
 	e.timeout, e.gotDL = e.o.recv(e.o.actionCh)
+	ctx = context.WithValue(ctx, c46MarkKey{}, e.o)
 	e.o.setSigning(ctx, startBlock)
-	return e.real.sign(ctx, message, startBlock)
+	sig, report, end, err := e.real.sign(ctx, message, startBlock)
+	e.o.signReturned()
+	return sig, report, end, err
 }
 
 // stub heartbeat executor: a signature with too few active members.
@@ -352,6 +532,11 @@ type c46Run struct {
 	confirm     []uint64
 	broadcast   time.Duration
 	err         error
+	// later message of the batch (transaction actions)
+	late        *c46SignCall
+	lateClass   string
+	overrun     string
+	clockAtEnd  uint64
 }
 
 var c46Key = func() *btcec.PrivateKey {
@@ -362,7 +547,7 @@ var c46Key = func() *btcec.PrivateKey {
 // c46Drive builds the action with the real constructor, plugs the REAL signing
 // executor (with observing block functions) in and runs execute() until the
 // signing phase gives up.
-func c46Drive(t *rapid.T, action WalletActionType, start uint64) (*c46Run, bool) {
+func c46Drive(t *rapid.T, action WalletActionType, start uint64, lateClass string, lateRaw uint64) (*c46Run, bool) {
 	o := c46NewObs(start)
 	pub := (*ecdsa.PublicKey)(&c46Key.PublicKey)
 	var pkh [20]byte
@@ -378,7 +563,7 @@ func c46Drive(t *rapid.T, action WalletActionType, start uint64) (*c46Run, bool)
 		o.currentBlock, o.execWait,
 		signingAttemptsLimit,
 	)
-	exec := &c46Exec{real: real, o: o}
+	exec := &c46Exec{real: real, o: o, lateClass: lateClass, lateRaw: lateRaw}
 
 	btc := &c46Btc{txs: map[bitcoin.Hash]*bitcoin.Transaction{}}
 	host := &c46Host{o: o, pkh: pkh}
@@ -446,22 +631,29 @@ func c46Drive(t *rapid.T, action WalletActionType, start uint64) (*c46Run, bool)
 	joined := o.join()
 	o.mu.Lock()
 	defer o.mu.Unlock()
-	if !joined || o.timedOut {
+	run.overrun = o.overrun
+	run.clockAtEnd = o.clock
+	if run.overrun == "" && (!joined || o.timedOut) {
+		// no logical-clock evidence and the hand-over between goroutines did
+		// not settle: machinery trouble
 		return nil, false
 	}
-	if o.signCalls != 1 || !exec.gotDL {
+	if len(o.calls) < 1 || !exec.gotDL {
 		t.Fatalf("%v: the action did not reach its signing step (execute: %v)", action, run.err)
 	}
+	first := o.calls[0]
 	run.signStart, run.signTimeout = o.signStart, exec.timeout
-	select {
-	case run.loopEnd = <-o.loopCh:
-	default:
+	if !first.hasLoop {
 		t.Fatalf("%v: the signing executor did not register a loop timeout (execute: %v)", action, run.err)
 	}
-	select {
-	case run.firstWait = <-o.annCh:
-	default:
+	run.loopEnd = first.loopTimeout
+	if len(first.waits) == 0 {
 		t.Fatalf("%v: the retry loop did not start (execute: %v)", action, run.err)
+	}
+	run.firstWait = first.waits[0]
+	if exec.lateRun && len(o.calls) >= 2 {
+		run.late = o.calls[1]
+		run.lateClass = lateClass
 	}
 	run.confirm = append(run.confirm, o.confirm...)
 	return run, true
@@ -504,11 +696,23 @@ func TestVerif_C46_SigningWindow(t *testing.T) {
 	rapid.Check(t, func(t *rapid.T) {
 		action := rapid.SampledFrom(c46Actions).Draw(t, "action")
 		start, startClass := c46GenStart(t)
-		run, ok := c46Drive(t, action, start)
+		lateClass := ""
+		var lateRaw uint64
+		if action != ActionHeartbeat {
+			lateClass = rapid.SampledFrom([]string{"binding", "binding", "any", "at-or-after"}).Draw(t, "laterMessageStart")
+			lateRaw = uint64(rapid.IntRange(0, 1<<20).Draw(t, "laterMessageOffset"))
+		}
+		run, ok := c46Drive(t, action, start, lateClass, lateRaw)
 		if !ok {
 			c46Inconclusive(t, "stubbed block waits did not settle in time")
 		}
 		desc := fmt.Sprintf("%v start=%d expiry=%d signing=[%d,%d] loop-end=%d broadcast=%v confirm-waits=%v", action, start, run.expiry, run.signStart, run.signTimeout, run.loopEnd, run.broadcast, run.confirm)
+		if run.late != nil {
+			desc += fmt.Sprintf(" later-message: start=%d loop-timeout=%d returned-at=%d", run.late.start, run.late.loopTimeout, run.late.returnedAt)
+		}
+		if run.overrun != "" {
+			t.Fatalf("%s: the signing phase does not end at the signing timeout: %s", desc, run.overrun)
+		}
 		if run.expiry <= start {
 			t.Fatalf("%s: proposal validity is empty", desc)
 		}
@@ -531,6 +735,29 @@ func TestVerif_C46_SigningWindow(t *testing.T) {
 		if run.firstWait < run.signStart || run.firstWait >= run.loopEnd {
 			t.Fatalf("%s: first attempt waits for block %d outside the loop", desc, run.firstWait)
 		}
+		lateLabel := "later-message:n/a"
+		if run.late != nil {
+			// a message of the batch that starts less than one retry loop
+			// before the signing timeout: the real sign() must be back, on
+			// the logical clock, no later than the timeout block and must
+			// not have waited for any later block
+			if run.late.returnedAt > run.signTimeout {
+				t.Fatalf("%s: sign() for a later message of the batch returned at block %d, after the signing timeout %d handed down by the action", desc, run.late.returnedAt, run.signTimeout)
+			}
+			for _, w := range run.late.waits {
+				if w >= run.signTimeout {
+					t.Fatalf("%s: the retry loop of a later message waited for block %d, at/after the signing timeout %d", desc, w, run.signTimeout)
+				}
+			}
+			switch {
+			case run.late.start >= run.signTimeout:
+				lateLabel = "later-message:starts-at-or-after-deadline"
+			case run.late.hasLoop && run.late.loopTimeout > run.signTimeout:
+				lateLabel = "later-message:cut-by-deadline"
+			default:
+				lateLabel = "later-message:loop-fits"
+			}
+		}
 		if action != ActionHeartbeat {
 			// post-signing: broadcast bounded to end before expiry even when
 			// signing ends at the last permitted block
@@ -540,7 +767,7 @@ func TestVerif_C46_SigningWindow(t *testing.T) {
 			}
 		}
 		st.Case(true, desc, "action:"+action.String(), "start:"+startClass,
-			fmt.Sprintf("slack-blocks:%d", run.signTimeout-run.loopEnd), fmt.Sprintf("signing-offset:%d", run.signStart-start))
+			fmt.Sprintf("slack-blocks:%d", run.signTimeout-run.loopEnd), fmt.Sprintf("signing-offset:%d", run.signStart-start), lateLabel)
 	})
 }
 
